@@ -17,6 +17,7 @@ import json
 import os
 import shutil
 import signal
+import socket
 import sqlite3
 import subprocess
 import sys
@@ -33,6 +34,8 @@ from vinegar.request_handler import sqlite_update
 from vinegar.http.server import HttpRequestInfo
 from vinegar.utils.socket import contains_ip_address
 
+import logging
+logging.getLogger("vinegar").setLevel(logging.CRITICAL + 1)     # handler exceptions are observed as status 500, not read from the log
 HERE = os.path.dirname(os.path.abspath(__file__))
 ERR = {"ValueError": 1, "TypeError": 2, "KeyError": 7, "OperationalError": 20, "IntegrityError": 21,
        "JSONDecodeError": 1, "UnicodeDecodeError": 1}
@@ -80,6 +83,23 @@ def enc_pv(v, parents=()):
             return [6, [enc_pv(x, ps) for x in v]]
         return [7, [[enc_key(k), enc_pv(x, ps)] for k, x in v.items()]]
     return [8, 2]                         # set, bytes, ...: TypeError
+
+
+def _shared_values():
+    """JSON-safe values whose object graph is a DAG: the same list/dict OBJECT at two positions (YAML anchor/alias)"""
+    disks = [1, 2]
+    nic = {"mac": "02:00", "up": True}
+    deep = {"x": [nic]}
+    return [{"boot": disks, "data": disks}, [nic, nic], [disks, [disks], {"d": disks}], {"a": deep, "b": deep, "c": [deep, nic]},
+            [[], []][:1] * 2]
+
+
+def _other_containers():
+    import collections
+    import types
+    return [collections.OrderedDict([("b", 1), ("a", 2)]), collections.defaultdict(list, {"k": [1]}),
+            types.MappingProxyType({"a": 1}), collections.UserDict({"a": 1}), collections.UserList([1]),
+            frozenset([1]), collections.deque([1]), range(3), collections.namedtuple("P", "x y")(1, 2), bytearray(b"x")]
 
 
 def _cyclic_values():
@@ -185,8 +205,8 @@ VALUES = [None, True, False, 0, 1, -1, 1.0, -0.0, 0.1, 2 ** 63, 2 ** 64 + 1, -(1
           {"a": {"b": [True, 1.5]}}, {"b": 1, "a": 2}, [1, 1.0, True], "null",
           # not JSON-safe
           (1, 2), [1, (2,)], {"a": (1,)}, {1: "x"}, {True: 1}, {None: 0}, {"1": "y", 1: "x"}, {(1, 2): 3}, {1, 2}, b"by",
-          [[]], [{}], {"": ""}, 1e-320, 10 ** 20, "true", [None], "None", "false", "0", 0.0, [0], [""], {"": None}, [False]] + _cyclic_values()
-PREFIXES = ["", "pre", "p:q", "p", "net", "p:q:r"]
+          [[]], [{}], {"": ""}, 1e-320, 10 ** 20, "true", [None], "None", "false", "0", 0.0, [0], [""], {"": None}, [False]] + _cyclic_values() + _shared_values() + _other_containers()
+PREFIXES = ["", "pre", "p:q", "p", "net", "p:q:r", "net:", ":x", "a::b", ":"]
 
 
 def adversarial_lookup_keys(pre, key):
@@ -244,6 +264,48 @@ LIMIT_VALUES = ["v" * 255, "v" * 256, "v" * 4096, _nest(16, 0), _nest(17, 0), _n
 LIMIT_IDS = ["s" * 255, "s" * 256, "s" * 4096, "\x01\x7f", " ", "\t", "a\nb"]
 
 
+class Httpd:
+    """ONE real vinegar HttpServer for the harness process (listening on ::1, ephemeral port); the handler under
+    test is put into its handler list for the request.  Requests are written as raw bytes so that the request
+    target reaches the server exactly as given."""
+    def __init__(self):
+        self.server = None
+        self.handlers = []
+
+    def port(self):
+        if self.server is None:
+            from vinegar.http import server as HS
+            self.server = HS.HttpServer(self.handlers, "::1", 0)
+            self.server.start()
+            import atexit
+            atexit.register(self.server.stop)
+        return self.server._server.server_address[1]
+
+    def request(self, handler, method, uri, clen, body):
+        port = self.port()
+        self.handlers[:] = [handler]
+        head = f"{method} {uri} HTTP/1.1\r\nHost: localhost\r\nConnection: close\r\n"
+        if clen is not None:
+            head += f"Content-Length: {clen}\r\n"
+        s = socket.create_connection(("::1", port), timeout=5)
+        try:
+            s.sendall(head.encode("latin-1") + b"\r\n" + body)
+            s.shutdown(socket.SHUT_WR)
+            data = b""
+            while True:
+                ch = s.recv(65536)
+                if not ch:
+                    break
+                data += ch
+        finally:
+            s.close()
+        return int(data.split(b" ", 2)[1])
+
+
+HTTPD = Httpd()
+HTTP_CLIENT = "::1"
+
+
 def handler_pool():
     return [
         {"path": "/upd", "action": "set_value", "key": "flag", "value": True, "cal": None},
@@ -256,8 +318,11 @@ def handler_pool():
         {"path": "/upd", "action": "set_json_value_from_request_body", "key": "k", "value": None, "cal": None},
         {"path": "/upd", "action": "set_json_value_from_request_body", "key": "flag", "value": None, "cal": ["192.0.2.1"]},
         {"path": "/upd", "action": "set_text_value_from_request_body", "key": "k", "value": None, "cal": None},
+        {"path": "/upd", "action": "set_value", "key": "flag", "value": [1], "cal": ["::1", "192.0.2.1"]},
         {"path": "/upd", "action": "set_value", "key": "flag", "value": "", "cal": None},
         {"path": "/upd", "action": "set_value", "key": "flag", "value": _cyclic_values()[1], "cal": None},
+        {"path": "/upd", "action": "set_value", "key": "k", "value": _shared_values()[0], "cal": None},
+        {"path": "/upd", "action": "set_value", "key": "flag", "value": _shared_values()[3], "cal": None},
         {"path": "/upd", "action": "set_value", "key": "flag", "value": None, "cal": None},
         {"path": "/upd", "action": "set_value", "key": "k", "value": [], "cal": None},
         {"path": "/upd", "action": "set_value", "key": "", "value": {}, "cal": None},
@@ -335,9 +400,10 @@ class C15(Check):
             return ("source", i, "find", lk, rng.choice(vals))
         i = rng.randrange(2)
         body = rng.choice(BODIES)
-        return ("handler", i, {"method": rng.choice(["POST", "POST", "POST", "GET", "PUT", "post", "DELETE"]),
+        via = rng.random() < 0.25
+        return ("handler", i, {"method": rng.choice(["POST", "POST", "POST", "GET", "PUT", "DELETE"] + ([] if via else ["post"])),
                                "uri": rng.choice(URIS[:2] * 4 + URIS), "ip": rng.choice(["192.0.2.1", "192.0.2.1", "192.0.2.2", "198.51.100.7"]),
-                               "clen": rng.choice(CLENS), "body": body})
+                               "clen": rng.choice(CLENS), "body": body, "via": via})
 
     def gen(self, tier, rng):
         n = 5000 if tier == "quick" else 40000
@@ -422,9 +488,11 @@ class C15(Check):
                 s = rng.choice(["a", "node1", "a b"])
                 uri = "/upd/" + s.replace(" ", "%20")
 
+                via = rng.random() < 0.3
+
                 def post():
                     return ("handler", 0, {"method": "POST", "uri": uri, "ip": "192.0.2.1", "clen": "=",
-                                           "body": rng.choice([b"1", b'"x"', b"0", b"text", b""])})
+                                           "body": rng.choice([b"1", b'"x"', b"0", b"text", b""]), "via": via})
 
                 def outside():
                     v = rng.choice([0, "", None, "other", [1], False])
@@ -523,7 +591,8 @@ class C15(Check):
                              ("store", rng.randrange(3), "set", other, "keep", 2)]
                     rng.shuffle(steps)
                     body = rng.choice([b'"new"', b"[2]", b"text"])
-                    steps.append(("handler", 0, {"method": "POST", "uri": uri, "ip": "192.0.2.1", "clen": "=", "body": body}))
+                    steps.append(("handler", 0, {"method": "POST", "uri": uri, "ip": "192.0.2.1", "clen": "=", "body": body,
+                                                 "via": rng.random() < 0.5}))
                     steps.append(("store", rng.randrange(3), "getdata", target))
                     steps.append(("store", rng.randrange(3), "getdata", other))
                     case["steps"] = steps
@@ -621,6 +690,8 @@ class C15(Check):
             return [4, [] if r is None else [u8(r)]]
         h = handlers[st[1]]
         req = st[2]
+        if req.get("via"):
+            return [6, HTTPD.request(h, req["method"], req["uri"], clen_of(req), req["body"])]
         ctx = h.prepare_context(req["uri"])
         if not h.can_handle(req["uri"], ctx):
             return [7]
@@ -716,7 +787,7 @@ class C15(Check):
             else:
                 req = st[2]
                 h = c["handlers"][st[1]]
-                allowed = contains_ip_address(h["cal"], req["ip"]) if h["cal"] else True
+                allowed = contains_ip_address(h["cal"], HTTP_CLIENT if req.get("via") else req["ip"]) if h["cal"] else True
                 cl = clen_of(req)
                 hv = cl if cl is not None else "0"
                 try:
@@ -728,7 +799,7 @@ class C15(Check):
                     int_t[hv] = []
                 for part in {req["uri"], req["uri"].partition("?")[0]}:
                     unq_t[part] = urllib.parse.unquote(part)
-                steps.append([2, st[1], [u8(req["method"]), u8(req["uri"]), allowed, [] if cl is None else [u8(cl)], req["body"]]])
+                steps.append([2, st[1], [u8(req["method"]), u8(req["uri"]), allowed, [] if cl is None else [u8(cl)], req["body"], bool(req.get("via"))]])
         # texts that can be read back are all noted above; obs texts (e.g. after a mutation) are added defensively
         for (_res, dmp) in obs:
             for row in dmp:
